@@ -311,6 +311,9 @@ def run(repo, rep, tier):
         "class; Categorize labels and entries iterate the same dict. Numerical correctness of sub-range arithmetic "
         "(isclose corrections, rounding), 2-D grids, projections and mpv are run-time questions and are not decided."
     )
+    rep.extra["explanation"] += " " + (
+        "Later additions: (R13.4) 2-D grids/projections read inner-most bins only; (R13.5) every edge expression is the class's one edge function; (R13.6) children are looked up by an index from the class's own index methods; (R13.7/R13.8) shared rules of C06 restricted to views; (R13.9) None-or-number attributes are never used as truth values."
+    )
     rep.not_decided += ["sub-range arithmetic (isclose corrections, np.round, arange lengths)", "2-D grids and projections", "mpv"]
     prims, _ = primitives(repo)
     r1 = rep.rule("R13.1", "every self.x read in primitives, specialised classes and plot mixins resolves", floor=1200)
